@@ -113,7 +113,23 @@ def gen_case(rng, malformed=False):
             "kind": kind, "ms": ms, "mt": mt, "label": f"m{j}" if rng.chance(1, 2) or any(m["kind"] == kind for m in metrics) else None,
             "default": fjson(Fraction(rng.randint(0, 12), 2)) if rng.chance(1, 3) else None,
         })
+    prelude = None
+    if rng.chance(2, 5):
+        # an earlier measure() on the SAME RunAnalysis object: two lists, the second one with a missing score
+        # (raises part-way under an 'error' disposition) or a complete one (succeeds); its outcome is ignored,
+        # the run that follows must be unaffected by it
+        kv = [rng.choice(keyvals) for _ in ofields]
+        kv2 = [rng.choice(keyvals) for _ in ofields]
+        raising = rng.chance(2, 3)
+        p_out = [{"key": kv, "items": [[30, "2/1"], [31, "7/2"]]},
+                 {"key": kv2, "items": [[30, "5/2"], [32, None if raising else "3/1"]]}]
+        try:
+            p_tst = [{"key": [o["key"][ofields.index(f)] for f in tfields], "items": [[30, "4/1"], [31, "1/1"], [32, "9/2"]]} for o in p_out]
+        except ValueError:
+            p_tst = []
+        prelude = {"outputs": p_out, "test": p_tst, "raising": raising}
     return {"ofields": ofields, "tfields": tfields, "outputs": outputs, "test": test, "metrics": metrics,
+            "prelude": prelude,
             "dtype": rng.choice(["f8", "f4"]),
             "style": style + ("/malformed" if malformed else "")}
 
@@ -207,6 +223,19 @@ def run_impl(case):
         ra.add_metric(_metric(m), m["label"], d)
         labels.append(ra.metrics[-1].label)
     obs = {"labels": labels}
+    if case.get("prelude"):
+        pre = case["prelude"]
+        po = ItemListCollection.empty(case["ofields"])
+        for o in pre["outputs"]:
+            po.add(_ilist(o["items"], "scores", case.get("dtype", "f8")), *o["key"])
+        pt = ItemListCollection.empty(case["tfields"])
+        for t in pre["test"]:
+            pt.add(_ilist(t["items"], "rating", case.get("dtype", "f8")), *t["key"])
+        try:
+            ra.measure(po, pt)
+            obs["prelude"] = "ok"
+        except Exception as e:   # its outcome is irrelevant; what matters is the next run on the same object
+            obs["prelude"] = type(e).__name__
     before = (_snapshot(outs, "score"), _snapshot(tst, "rating"))
     try:
         res = ra.measure(outs, tst)
@@ -220,7 +249,9 @@ def run_impl(case):
     obs["inputs_unchanged"] = before == (_snapshot(outs, "score"), _snapshot(tst, "rating"))
     res2 = ra.measure(outs, tst)   # a second reading of the same lists must give the same table
     a1, a2 = raw.to_numpy(dtype=float), res2.list_metrics(fill_missing=False).to_numpy(dtype=float)
-    obs["second_measure_equal"] = bool(a1.shape == a2.shape and np.array_equal(a1, a2, equal_nan=True))
+    g1, g2 = res.global_metrics().to_numpy(dtype=float), res2.global_metrics().to_numpy(dtype=float)
+    obs["second_measure_equal"] = bool(a1.shape == a2.shape and np.array_equal(a1, a2, equal_nan=True)
+                                       and g1.shape == g2.shape and np.array_equal(g1, g2, equal_nan=True))
     obs["columns"] = list(raw.columns)
     obs["raw"] = [[_num(v) for v in row] for row in raw.to_numpy(dtype=float).tolist()]
     obs["filled"] = [[_num(v) for v in row] for row in filled.to_numpy(dtype=float).tolist()]
@@ -366,7 +397,7 @@ def oracle(case, obs):
     if not obs.get("inputs_unchanged", True):
         v.append(("inputs-mutated", "measure() changed the scores or ratings of the lists it was given"))
     if not obs.get("second_measure_equal", True):
-        v.append(("second-measure-differs", "measuring the same collections a second time gave a different per-list table"))
+        v.append(("second-measure-differs", "measuring the same collections a second time gave a different per-list table or different run-level values"))
     tm = [m for m in case["metrics"] if m["kind"] != "global"]
     for r, (o, tl) in enumerate(zip(case["outputs"], tests)):
         for c, m in enumerate(tm):
@@ -452,6 +483,7 @@ def nontrivial(case, obs):
 def counters(case, obs):
     yield "style=" + case["style"]
     yield "dtype=" + case.get("dtype", "f8")
+    yield "prelude=" + str(obs.get("prelude", "none"))
     yield f"error={obs['error']}"
     yield f"lists={len(case['outputs'])}"
     for m in case["metrics"]:
